@@ -123,7 +123,7 @@ def get_type_graph(t: type) -> graphlib.TopologicalSorter[TypeNode]:
         predecessors = []
         for var, child in _level(parent_unwrapped):
             # If no type was provided, there's no reason to do further processing.
-            if child in (constants.empty, typing.Any):
+            if child in (constants.empty, typing.Any, Ellipsis):
                 continue
 
             unwrapped = inspection.unwrap(child)
@@ -138,20 +138,35 @@ def get_type_graph(t: type) -> graphlib.TopologicalSorter[TypeNode]:
             #   wrap in a ForwardRef and don't add it to the stack
             #   This will terminate this edge to prevent infinite cycles.
             if is_visited and can_be_cyclic:
-                qualname = inspection.qualname(child)
-                *rest, refname = qualname.split(".", maxsplit=1)
                 is_argument = var is not None
-                module = ".".join(rest) or getattr(child, "__module__", None)
-                if module in (None, "__main__") and rest:
-                    module = rest[0]
                 is_class = inspect.isclass(child)
-                ref = refs.forwardref(
-                    refname, is_argument=is_argument, module=module, is_class=is_class
+                is_named = hasattr(child, "__name__") and not (
+                    inspection.issubscriptedgeneric(child)
                 )
-                uref = refs.forwardref(
-                    unwrapped, is_argument=is_argument, module=module, is_class=is_class
-                )
-                node = TypeNode(ref, uref, var=var, cyclic=True)
+                # Subscripted generics and unions can't be referenced by name
+                #   without losing their parameters, so the node carries the type
+                #   itself and consumers resolve it lazily.
+                if not is_named:
+                    node = TypeNode(child, unwrapped, var=var, cyclic=True)
+                else:
+                    refname = inspection.qualname(child)
+                    module = getattr(child, "__module__", None)
+                    if module is None:
+                        *rest, refname = refname.split(".", maxsplit=1)
+                        module = ".".join(rest) or None
+                    ref = refs.forwardref(
+                        refname,
+                        is_argument=is_argument,
+                        module=module,
+                        is_class=is_class,
+                    )
+                    uref = refs.forwardref(
+                        unwrapped,
+                        is_argument=is_argument,
+                        module=module,
+                        is_class=is_class,
+                    )
+                    node = TypeNode(ref, uref, var=var, cyclic=True)
             # Otherwise, add the type to the stack and track that it's been seen.
             else:
                 node = TypeNode(type=child, unwrapped=unwrapped, var=var)
@@ -177,7 +192,7 @@ class TypeNode:
     """The unwrapped type annotation for this node."""
     var: str | None = None
     """The variable or parameter name associated to the type annotation for this node."""
-    cyclic: bool = dataclasses.field(default=False, hash=False, compare=False)
+    cyclic: bool = False
     """Whether this type annotation is cyclic."""
 
     def __post_init__(self):
